@@ -34,6 +34,14 @@ Definition classify (s : cli) (payload : pv) (tbl : jtable) : spkt :=
       end
   end.
 
+(* the notifications ending a namespace calls for: 'disconnect' with the reason, then the internal
+   '__disconnect_final' (judged, never expected to invoke an application handler) *)
+Definition notify_end (c : cfg) (reason : pv) (ns : str) : option (list (N * list pv)) :=
+  match notify c ev_final ns [] with
+  | Some _ => notify c ev_disconnect ns [reason]
+  | None => None
+  end.
+
 Definition error_args (data : pv) : list pv :=
   match data with PNone => [] | PTuple l | PList l => l | x => [x] end.
 
@@ -53,7 +61,7 @@ Definition sv_packet (c : cfg) (own : pv) (sv : sview) (p : spkt) : pstep :=
   | SDisconnect ns =>
       if ahas str_eqb (sv_acc sv) ns then
         mkPS (mkSV (adel str_eqb (sv_acc sv) ns) (sv_live sv) (sv_req sv) (sv_clean sv) (sv_ever sv))
-             (notify c ev_disconnect ns [r_server_disconnect]) true
+             (notify_end c r_server_disconnect ns) true
       else mkPS sv None false
   | SError ns data =>
       mkPS (mkSV (if str_eqb ns slash then [] else adel str_eqb (sv_acc sv) ns) (sv_live sv) (sv_req sv) false (sv_ever sv))
@@ -62,18 +70,27 @@ Definition sv_packet (c : cfg) (own : pv) (sv : sview) (p : spkt) : pstep :=
   end.
 
 
-(* the packets of a connect() wait window, classified along the MODEL's reassembly state *)
+(* the packets of a connect() wait window, classified along the MODEL's reassembly state.  A
+   DISCONNECT that ends the last accepted namespace makes the client close the transport: the rest
+   of the window never arrives.  Returns the view, the connect / connect_error notifications the
+   window calls for, and whether a DISCONNECT ended a namespace. *)
+Definition is_disc (p : spkt) : bool := match p with SDisconnect _ => true | _ => false end.
 Fixpoint sv_window (c : cfg) (s : cli) (sv : sview) (w : list (pv * jtable))
-  : sview * option (list (N * list pv)) * bool (* a DISCONNECT was seen *) :=
+  : sview * option (list (N * list pv)) * bool :=
   match w with
   | [] => (sv, Some [], false)
   | (payload, tbl) :: r =>
       let p := classify s payload tbl in
       let st := sv_packet c (sid s) sv p in
+      let here := if ps_dom st
+                  then (if is_disc p then match ps_calls st with Some _ => Some [] | None => None end else ps_calls st)
+                  else Some [] in
+      let ended := is_disc p && ps_dom st in
+      if ended && match sv_acc (ps_view st) with [] => true | _ => false end then (ps_view st, here, true)
+      else
       let s1 := fst (fst (deliver c payload tbl s)) in
       let '(sv', calls, disc) := sv_window c s1 (ps_view st) r in
-      (sv', opt_app (match p with SDisconnect _ => Some [] | _ => ps_calls st end) calls,
-       disc || match p with SDisconnect _ => true | _ => false end)
+      (sv', opt_app here calls, disc || ended)
   end.
 
 (* ---- clauses ---- *)
@@ -101,8 +118,9 @@ Definition ends_raise (x : exn) (l : list eff) : bool :=
 
 (* finite-map equality of the namespace tables *)
 Definition nsmap_eqb (a b : list (str * pv)) : bool :=
-  Nat.eqb (List.length a) (List.length b) &&
-  forallb (fun x => match aget str_eqb b (fst x) with Some v => pv_eqb v (snd x) | None => false end) a.
+  list_eqb (pair_eqb str_eqb pv_eqb) a b ||
+  (Nat.eqb (List.length a) (List.length b) &&
+   forallb (fun x => match aget str_eqb b (fst x) with Some v => pv_eqb v (snd x) | None => false end) a).
 
 (* mirror + reset, on the implementation's dump after an operation *)
 Definition c08_state (sv : sview) (d : cdump) : nat :=
@@ -116,38 +134,43 @@ Definition c08_state (sv : sview) (d : cdump) : nat :=
          else match d_cbs d with [] => true | _ => false end && d_binpkt_none d && pv_eqb (d_sid d) PNone) B_RESET)%nat.
 
 (* an expectation that is not specified (a handler raises): the history leaves the domain here *)
-Definition judged {A} (exp : option A) (k : A -> nat * option sview) : nat * option sview :=
-  match exp with None => (O, None) | Some x => k x end.
+Record vstep := mkV { v_view : sview; v_chk : list eff -> cdump -> cdump -> nat }.   (* effects, dump before, dump after *)
+Definition judged {A} (exp : option A) (k : A -> option vstep) : option vstep :=
+  match exp with None => None | Some x => k x end.
 Definition frames_all (t : Z) (data : pv) (nss : list str) : option (list pv) :=
   fold_right (fun n acc => match frames_of t data n None, acc with
                            | Ok f, Some l => Some (f ++ l) | _, _ => None end) (Some []) nss.
+Definition no_chk : list eff -> cdump -> cdump -> nat := fun _ _ _ => O.
+Definition is_other (p : spkt) : bool := match p with SOther => true | _ => false end.
 
-(* one operation: model state before, server view before, implementation dump before,
-   the operation, what the implementation did, its dump after -> failed clauses, view after
-   (None = the history left the specified domain) *)
-Definition c08_step (c : cfg) (s : cli) (sv : sview) (dprev : cdump) (o : op) (obs : list eff) (d : cdump)
-  : nat * option sview :=
+(* one operation, specification side: from the model state before, the server view before and the
+   implementation's dump before: the view after and the judgement to apply to what the
+   implementation did (None = the history left the specified domain).  The view never depends on
+   the observed effects. *)
+Definition view_step (c : cfg) (s : cli) (sv : sview) (dprev : cdump) (o : op) : option vstep :=
   match o with
   | CConnect nss auth _ wait eio_fails window =>
       if sv_live sv then
         (* the specification's client is connected: 'Already connected', nothing changes *)
         if d_connected dprev
-        then (flag (list_eqb eff_eqb obs [Raised ConnectionError] && dump_eqb d dprev) B_WAIT, Some sv)
-        else (O, None)
+        then Some (mkV sv (fun obs dp d => flag (list_eqb eff_eqb obs [Raised ConnectionError] && dump_eqb d dp) B_WAIT))
+        else None
       else
       let req := match nss with None => derived_namespaces c | Some l => l end in
-      if negb (eiost_eqb (d_eio dprev) EDisconnected) then (O, None) else
+      if negb (eiost_eqb (d_eio dprev) EDisconnected) then None else
+      match req with [] => None | _ :: _ =>          (* connect(namespaces=[]) is outside the domain *)
       if eio_fails then
-        let sv' := mkSV [] false req false false in
         judged (fold_opt (fun n => notify c ev_connect_error n [eio_error_message]) req) (fun calls =>
-        ((flag (ends_raise ConnectionError obs && match sent_of obs with [] => true | _ => false end &&
-                calls_eqb calls (calls_for c ev_names_conn obs)) B_WAIT + c08_state sv' d)%nat, Some sv'))
+        Some (mkV (mkSV [] false req false false) (fun obs _ _ =>
+          flag (ends_raise ConnectionError obs && match sent_of obs with [] => true | _ => false end &&
+                calls_eqb calls (calls_for c ev_names_conn obs)) B_WAIT)))
       else
       let authv := if truthy auth then auth else PDict [] in
       judged (frames_all CONNECT authv req) (fun w =>
-      let sent := sent_of obs in
-      let sends_ok := list_eqb pv_eqb (firstn (List.length w) sent) w &&
-                      forallb (fun p => negb (is_connect_frame p)) (skipn (List.length w) sent) in
+      let sends_ok obs :=
+        let sent := sent_of obs in
+        list_eqb pv_eqb (firstn (List.length w) sent) w &&
+        forallb (fun p => negb (is_connect_frame p)) (skipn (List.length w) sent) in
       (* the model state in which the window starts: after eio connect + the CONNECT packets *)
       let s0 := fst (fst (connect_begin c nss auth false s)) in
       let sv0 := mkSV [] true req true false in
@@ -155,64 +178,88 @@ Definition c08_step (c : cfg) (s : cli) (sv : sview) (dprev : cdump) (o : op) (o
         let '(sv1, ocalls, disc) := sv_window c s0 sv0 window in
         judged ocalls (fun calls =>
         if set_eqb (map fst (sv_acc sv1)) req then
-          let sv' := mkSV (sv_acc sv1) true req (sv_clean sv1 && negb disc) (sv_ever sv1) in
-          ((flag sends_ok B_SENDS +
-            flag (ends_ret obs && calls_eqb calls (calls_for c ev_names_conn obs)) B_WAIT +
-            c08_state sv' d)%nat, Some sv')
+          Some (mkV (mkSV (sv_acc sv1) true req (sv_clean sv1 && negb disc) (sv_ever sv1)) (fun obs _ _ =>
+            (flag (sends_ok obs) B_SENDS +
+             flag (ends_ret obs && calls_eqb calls (calls_for c ev_names_conn obs)) B_WAIT)%nat))
         else
-          let sv' := mkSV [] false req false false in
-          ((flag sends_ok B_SENDS +
-            flag (ends_raise ConnectionError obs && calls_eqb calls (calls_for c ev_names_conn obs)) B_WAIT +
-            c08_state sv' d)%nat, Some sv'))
+          Some (mkV (mkSV [] false req false false) (fun obs _ _ =>
+            (flag (sends_ok obs) B_SENDS +
+             flag (ends_raise ConnectionError obs && calls_eqb calls (calls_for c ev_names_conn obs)) B_WAIT)%nat)))
       else
-        ((flag sends_ok B_SENDS + flag (ends_ret obs) B_WAIT + c08_state sv0 d)%nat, Some sv0))
+        Some (mkV sv0 (fun obs _ _ => (flag (sends_ok obs) B_SENDS + flag (ends_ret obs) B_WAIT)%nat)))
+      end
   | CMsg payload tbl =>
-      if negb (sv_live sv) then (c08_state sv d, Some sv) else
+      if negb (sv_live sv) then Some (mkV sv no_chk) else
       let p := classify s payload tbl in
       let st := sv_packet c (sid s) sv p in
       let sv1 := ps_view st in
       match p, sv_acc sv with
-      | SDisconnect _, [] => (O, None)            (* DISCONNECT while no namespace is connected: outside the domain *)
-      | SOther, _ => (c08_state sv d, Some sv)
+      | SDisconnect _, [] => None                  (* DISCONNECT while no namespace is connected: outside the domain *)
+      | SOther, _ => Some (mkV sv no_chk)
       | _, _ =>
-          if negb (ps_dom st) then (c08_state sv1 d, Some sv1) else
+          if negb (ps_dom st) then Some (mkV sv1 no_chk) else
           judged (ps_calls st) (fun calls =>
           (* the last namespace is gone: the client closes the transport *)
           let sv' := match p, sv_acc sv1 with
                      | SDisconnect _, [] => mkSV [] false (sv_req sv1) false false
                      | _, _ => sv1 end in
-          let once := match p with
-                      | SDisconnect _ => negb (sv_clean sv) || calls_eqb calls (calls_for c ev_names_all obs)
-                      | _ => calls_eqb calls (calls_for c ev_names_all obs)
-                      end in
-          ((flag once B_ONCE + c08_state sv' d)%nat, Some sv'))
+          Some (mkV sv' (fun obs _ _ =>
+            flag (match p with
+                  | SDisconnect _ => negb (sv_clean sv) || calls_eqb calls (calls_for c ev_names_all obs)
+                  | _ => calls_eqb calls (calls_for c ev_names_all obs)
+                  end) B_ONCE)))
       end
   | CEmit _ _ ns _ | CSend _ ns _ | CCall _ _ ns _ _ =>
       let n := ns_or_default ns in
-      let ok :=
-        if sv_live sv && ahas str_eqb (sv_acc sv) n
-        then negb (existsb (exn_eqb BadNamespaceError) (raised_of obs)) &&
-             match sent_of obs with [] => false | _ => true end
-        else list_eqb eff_eqb obs [Raised BadNamespaceError] in
-      ((flag ok B_BADNS + c08_state sv d)%nat, Some sv)
+      let on := sv_live sv && ahas str_eqb (sv_acc sv) n in
+      (* call(): the frame the fake server answers with must be an ACK for the client, not a connection-level packet *)
+      let reply_ok :=
+        match o with
+        | CCall ev data _ (Some r) tbl =>
+            if on then
+              match fst (fst (api_emit ev data ns (Some CbInt) s)), snd (api_emit ev data ns (Some CbInt) s) with
+              | s1, Ok (Some id) =>
+                  match frames_of ACK (PList r) n (Some (Z.of_N id)) with
+                  | Ok (f :: _) => is_other (classify s1 f tbl)
+                  | _ => true
+                  end
+              | _, _ => true
+              end
+            else true
+        | _ => true
+        end in
+      if negb reply_ok then None else
+      Some (mkV sv (fun obs _ _ =>
+        flag (if on
+              then negb (existsb (exn_eqb BadNamespaceError) (raised_of obs)) &&
+                   match sent_of obs with [] => false | _ => true end
+              else list_eqb eff_eqb obs [Raised BadNamespaceError]) B_BADNS))
   | CDisconnect =>
       let sv' := sv_down sv in
       if sv_live sv then
-        judged (fold_opt (fun n => notify c ev_disconnect n [r_client_disconnect]) (map fst (sv_acc sv))) (fun calls =>
+        judged (fold_opt (notify_end c r_client_disconnect) (map fst (sv_acc sv))) (fun calls =>
         judged (frames_all DISCONNECT PNone (map fst (sv_acc sv))) (fun w =>
-        ((flag (list_eqb pv_eqb (sent_of obs) w) B_SENDS +
-          flag (negb (sv_clean sv) || calls_eqb calls (calls_for c ev_names_all obs)) B_ONCE +
-          c08_state sv' d)%nat, Some sv')))
-      else ((flag (match obs with [] => true | _ => false end) B_ONCE + c08_state sv' d)%nat, Some sv')
+        Some (mkV sv' (fun obs _ _ =>
+          (flag (list_eqb pv_eqb (sent_of obs) w) B_SENDS +
+           flag (negb (sv_clean sv) || calls_eqb calls (calls_for c ev_names_all obs)) B_ONCE)%nat))))
+      else Some (mkV sv' (fun obs _ _ => flag (match obs with [] => true | _ => false end) B_ONCE))
   | CLoss | CServerClose =>
       let sv' := sv_down sv in
       let reason := match o with CLoss => r_transport_error | _ => r_server_disconnect end in
       if sv_live sv then
-        judged (fold_opt (fun n => notify c ev_disconnect n [reason]) (map fst (sv_acc sv))) (fun calls =>
-        ((flag (negb (sv_clean sv) || calls_eqb calls (calls_for c ev_names_all obs)) B_ONCE +
-          flag (match sent_of obs with [] => true | _ => false end) B_SENDS +
-          c08_state sv' d)%nat, Some sv'))
-      else ((flag (match obs with [] => true | _ => false end) B_ONCE + c08_state sv' d)%nat, Some sv')
+        judged (fold_opt (notify_end c reason) (map fst (sv_acc sv))) (fun calls =>
+        Some (mkV sv' (fun obs _ _ =>
+          (flag (negb (sv_clean sv) || calls_eqb calls (calls_for c ev_names_all obs)) B_ONCE +
+           flag (match sent_of obs with [] => true | _ => false end) B_SENDS)%nat)))
+      else Some (mkV sv' (fun obs _ _ => flag (match obs with [] => true | _ => false end) B_ONCE))
+  end.
+
+(* one operation: failed clauses (effects judgement + mirror / reset on the dump after), view after *)
+Definition c08_step (c : cfg) (s : cli) (sv : sview) (dprev : cdump) (o : op) (obs : list eff) (d : cdump)
+  : nat * option sview :=
+  match view_step c s sv dprev o with
+  | None => (O, None)
+  | Some v => ((v_chk v obs dprev d + c08_state (v_view v) d)%nat, Some (v_view v))
   end.
 
 (* the clauses failed by the FIRST operation that fails any (afterwards the server's view and the
